@@ -130,6 +130,7 @@ def cases(seed, count, order=None, nphi=None, synth_frac=0.4):
             kw.pop('rs', None); kw.pop('zc', None)
             kw['sigma0'] = 0.0
             kw['B2s'] = float(rng.uniform(0.15, 0.5) * rng.choice([-1, 1]))
+            kw['B2s'] = abs(kw['B2s']) * (-1 if (k // 4) % 2 == 0 else 1)      # both signs met deterministically (a test 'B2s > 0' is wrong for one)
         if k % 4 == 2:
             # the plain stratum: stellarator-symmetric vacuum field in the default units (switch-off values are inputs too:
             # p2 == 0, I2 == 0, sigma0 == 0, B0 == 1 select branches and make factors equal to one)
